@@ -577,8 +577,21 @@ func ICmp(op string, a, b *Term) *Term { // < <= > >=
 }
 
 // BV2Int / Int2BV are only used on constants or at the boundary of int mode.
-func ToReal(a *Term) *Term { return mk("to_real", SortReal, "", nil, a) }
-func ToInt(a *Term) *Term  { return mk("to_int", SortInt, "", nil, a) }
+func ToReal(a *Term) *Term {
+	if a.IsConst() {
+		return mk("const", SortReal, "", a.c)
+	}
+	return mk("to_real", SortReal, "", nil, a)
+}
+func ToInt(a *Term) *Term {
+	if a.op == "to_real" {
+		return a.args[0]
+	}
+	if a.op == "const" {
+		return IntBig(a.c)
+	}
+	return mk("to_int", SortInt, "", nil, a)
+}
 
 func AndN(ts ...*Term) *Term {
 	r := Bool(true)
